@@ -15,10 +15,10 @@ Masks   == IF Small THEN {DefaultAllow, {}} ELSE {DefaultAllow, {2, 3, 4, 5, 6, 
 MaskInt(m) == FoldLeft(LAMBDA a, b : a + (IF b \in m THEN 2 ^ b ELSE 0), 0, [i \in 1..11 |-> i - 1])
 NPool == IF Small THEN (IF Len(Pool) < 5 THEN Len(Pool) ELSE 5) ELSE Len(Pool)
 \* every libidn2 failure code (idn2.h), an unknown negative one, with 0 = no fault
-\* Faults: FALSE = none, TRUE = three representative codes, "all" = every libidn2 code
+\* Faults: 0 = none, 1 = three representative codes, 2 = every libidn2 code
 AllFaultCodes == {0, -100, -101, -102, -103, -104, -200, -201, -202, -203, -204, -205, -206, -207, -208,
                   -300, -301, -302, -303, -304, -305, -306, -307, -308, -309, -310, -311, -312, -313, -314, -999}
-FaultCodes == IF Faults = "all" THEN AllFaultCodes ELSE IF Faults = TRUE THEN {0, -100, -304} ELSE {0}
+FaultCodes == IF Faults = 2 THEN AllFaultCodes ELSE IF Faults = 1 THEN {0, -100, -304} ELSE {0}
 ConvOf(i, f) == IF f = 0 THEN Pool[i].conv ELSE [code |-> f, out |-> <<>>]
 \* the per-mode results of the pool: literal tables of EnvData (computed by the pre-run MC_Pool)
 ModeIdx(m) == CASE m = RFC822 -> 1 [] m = RFC5321 -> 2 [] m = RFC5322 -> 3 [] m = RFC6531 -> 4
